@@ -8,16 +8,19 @@ CLAIMED = {
     "C01": dict(
         text="Lean 4 theorems over every reachable state of a shared-access-granularity model of Signal.wait/go/bool/then/"
              "remove_then (any number of threads, any interleaving): no early release, monotone flag, unique publishing go(), "
-             "no lost wake-up, no deadlock (quiescent & flag true => every call returned), Never. The model is tied to "
+             "no lost wake-up, no deadlock (quiescent & flag true => every call returned), termination (C01_runs_terminate, "
+             "C01_every_wait_returns: explicit rank, every step decreases it), Never. The model is tied to "
              "mo_threads/signals.py by lock-step replay of real executions under a deterministic scheduler.",
         design="§5 C01", technique="Lean 4 inductive invariant (27 fields, 45 step cases) + lock-step differential against the real code",
         note="Trusted: Lean kernel, axioms {propext, Classical.choice, Quot.sound}; hand-written model + lock-step correspondence "
              "harness; CPython atomicity of single attribute accesses / list ops, `with`, _thread.lock are modelled not verified. "
-             "Bounded-step progress (L2) is not yet a theorem; L1 (no bad quiescent state) is."),
+             "L1 (no bad quiescent state) and L2 (explicit ranking function: every run without new calls takes at most rank steps, "
+             "under any scheduler) are theorems."),
     "C02": dict(
         text="Lean 4 theorems over the same model with ghost run counters per registration: at most once, only when the flag is "
              "true (also at the very step), exactly once at quiescence unless removed before the trigger, removed never runs, "
-             "raising callbacks isolated (handler exactly once), waiters released before callbacks; for every `raises` set.",
+             "raising callbacks isolated (handler exactly once), waiters released before callbacks; every run ends within the rank "
+             "bound with every surviving registration run exactly once (C02_every_callback_runs); for every `raises` set.",
         design="§5 C02", technique="Lean 4 inductive invariant with ghost location per registration + lock-step differential",
         note="Same trusted base as C01. Each then() registration is a distinct target; remove_then removes the first equal entry."),
 }
@@ -105,14 +108,18 @@ CLAIMED["C10"] = dict(
          "skipped lazily/eagerly); flattening of the stop()/join() recursion is exact only because neither exits early (argued, "
          "checked on traces); try/finally and exception propagation are modelled; children are created by their parent's own target.")
 CLAIMED["C11"] = dict(
-    text="PARTIAL proof + monitor. Proved: stop() never blocks; visiting a thread snapshots its children and schedules a visit of "
-         "each before triggering its own please_stop; please_stop is permanent; an unstopped thread is still listed under its parent "
-         "(repaired shutdown block), MainThread.stop() ends its join phase only when every child of main and, by C10, every "
-         "registered descendant has stopped. NOT yet a theorem: the transitive 'every descendant registered when stop() was called' "
-         "over a tree that changes during the walk — decided on the implementation by the scheduler-driven monitor and the trace "
-         "acceptance. The pinned tree violated the property (stop racing a shutdown block that had detached its children): fixed.",
-    design="§5 C11, §7", technique="Lean 4 theorems (partial) + trace acceptance + C11 monitor under gated-stop schedules",
-    note="Same trusted base as C10. The quantifier over dynamic trees is covered by the monitor on explored schedules only.")
+    text="Lean 4 theorems over every reachable state of the thread-tree model (any tree, any interleaving). stop() never blocks; "
+         "CLOSURE (C11_stop_reaches_every_descendant / C11_stop_returned): when stop(p) returns, every thread that was p or a "
+         "registered descendant of p (any number of generations) when the call started has please_stop set or has already stopped, "
+         "although the tree changes while stop() walks it (threads ending, children joined and unregistered, new children "
+         "registering) - proved by an invariant that keeps every target covered by the remaining work list; please_stop is "
+         "permanent; an unstopped thread is still listed under its parent (repaired shutdown block); MainThread.stop() ends its join "
+         "phase only when every child of main and, by C10, every registered descendant has stopped, and reports failures after "
+         "having joined all. The pinned tree violated the property (stop racing a shutdown block that had detached its children): fixed.",
+    design="§5 C11, §7", technique="Lean 4 inductive invariants (work-list coverage of stop(), frame lemmas for every move) + trace acceptance + C11 monitor under gated-stop schedules",
+    note="Same trusted base as C10. 'Registered' is the ghost list of all threads ever registered under a parent; the flattened "
+         "work list of stop() is exact because the recursion never exits early.")
+
 CLAIMED["C12"] = dict(
     text="Lean 4 theorems on the same model: the outcome is stored before `stopped` and never changes; join(u) returning a value "
          "means u stopped and the value is exactly what the target returned; a timeout is reported only if the till fired and u has "
@@ -176,24 +183,33 @@ CLAIMED["C17"] = dict(
          "line splitting is checked on real children only.")
 
 CLAIMED["C03"] = dict(
-    text="PARTIAL. Lean 4 theorems over every reachable state of a heap model of Signal.__or__/or_signal/OrSignal with reference "
+    text="Lean 4 theorems over every reachable state of a heap model of Signal.__or__/or_signal/OrSignal with reference "
          "counting (any number of threads, nested and shared operands, dropping references, triggering, wait(till=), every "
          "interleaving at the granularity of one Signal operation): the operands of a live, untriggered OR composite stay alive "
-         "and cannot be collected, and its operand list is intact until it is triggered or dies. The equivalence c <-> x or y at "
-         "quiescence, the constants (None/True/False/DONE/NEVER) and the release of waiters are checked on the real code by "
-         "monitors and by trace acceptance of every step, not yet theorems.",
-    design="§5 C03", technique="Lean 4 inductive invariant over a heap with reference counting + trace acceptance of the real operators under CPython refcounting + monitors",
+         "and cannot be collected, its operand list is intact until it is triggered or dies; a composite not triggered directly "
+         "is true only if some operand is (at every moment); a true operand's trigger is always on its way to the composite; "
+         "EQUIVALENCE (C03_or_iff, C03_or_iff_operands): at every quiescent point a live composite is true exactly when some "
+         "operand is, whether the operands were triggered before, during or after it was built; flags are monotone. The constants "
+         "(None/True/False/DONE/NEVER) and the release of waiters (C01 on the composite, an ordinary Signal) are checked on the "
+         "real operators by monitors and by trace acceptance.",
+    design="§5 C03", technique="Lean 4 inductive invariants (liveness of operands, hook coverage, propagation) over a heap with reference counting + trace acceptance of the real operators under CPython refcounting + monitors",
     note="Trusted: Lean kernel + standard axioms; model Composite.lean tied to signals.py by trace acceptance; then/go/remove_then "
-         "atomic (C01/C02 on M1); CPython reference counting and weakref callback order are assumptions; gc disabled.")
+         "atomic (C01/C02 on M1); CPython reference counting and weakref callback order are assumptions; the harness disables the "
+         "cyclic collector during scheduled runs and probes cyclic collections in a separate sequential search.")
+
 
 CLAIMED["C04"] = dict(
-    text="PARTIAL. Same model. Lean 4 theorems for every reachable state: every operand of a live, untriggered AND composite is "
-         "alive and not collectable, the AndSignals operand list is intact and the object is referenced from the composite (the "
-         "repaired wiring) - the part of the property the pinned tree violated: (a | b) & c never became true because a | b was "
-         "collected at once; fixed in /repo. The countdown equivalence c <-> x and y at quiescence and the constants are checked "
-         "on the real code by monitors and trace acceptance, not yet theorems.",
-    design="§5 C04, §7", technique="Lean 4 inductive invariant over a heap with reference counting + trace acceptance + monitors",
+    text="Same model (the REPAIRED __and__). Lean 4 theorems for every reachable state: every operand of a live, untriggered AND "
+         "composite is alive and not collectable, the AndSignals operand list is intact and the object is referenced from the "
+         "composite - the part the pinned tree violated ((a | b) & c never became true because a | b was collected at once; "
+         "fixed in /repo); COUNTDOWN (C04_countdown_is_exact): `remaining` always equals the number of operand positions whose "
+         "countdown step has not run, each position counts exactly once (a & a counts twice); the composite is true only if all "
+         "operands are; EQUIVALENCE (C04_and_iff, C04_and_iff_operands): at every quiescent point a live composite not triggered "
+         "directly is true exactly when both operands are. The countdown step is one model step; the real decrement is explored "
+         "at the granularity of every access to `remaining` (fine-mode runs). Constants are checked by monitors.",
+    design="§5 C04, §7", technique="Lean 4 inductive invariants (token counting of countdown steps over per-thread pending actions) over a heap with reference counting + trace acceptance + fine-mode countdown runs + monitors",
     note="Same trusted base as C03.")
+
 
 CLAIMED["C15"] = dict(
     text="Lean 4 theorems over every reachable state of the heap model M2 (any number of threads, nested and shared operands, "
